@@ -56,7 +56,8 @@ MACRO_POOL = ['push2', 'ldw', 'mov3', 'inc2', 'clr', 'jsr', 'ldq.w', 'pushx', 'p
 REG_POOL = ['a', 'b', 'x', 'ab', 'sp', 'a1', 'ix', 'mar', 'r0', 'r1', 'hl', 'h', 'r10', 'A2', 'abx', '_r', 'r_', 'x_1', 'b0', 'b10',
             'AH', 'DH', 'c0']
 DESCRIPTIONS = ['vocab ISA', 'A CPU: the "best" one', 'line one\nline two: with colon\n# not a comment', 'tabs\tand \'quotes\'',
-                'multi\n\nparagraph\n', '', 'x' * 90, 'key: value', '- list item', '%YAML in text', '{braces} [brackets]']
+                'multi\n\nparagraph\n', '', 'x' * 90, 'key: value', '- list item', '%YAML in text', '{braces} [brackets]',
+                'caf\u00e9 CPU \u2013 f\u00fcr Z\u00fcge', '\u6f22\u5b57 ISA', 'na\u00efve \u00b5-coded core']
 INSTR_SCOPE = 'variable.function.instruction'
 MACRO_SCOPE = 'variable.function.macro'
 REG_SCOPE = 'variable.language.register'
@@ -394,6 +395,12 @@ def check_outputs(files, case, isa):
 
     def text_of(p):
         return outs[p].encode('latin-1').decode('utf-8', 'replace')
+    for p in outs:
+        if p.endswith(('.json', '.tmTheme')):
+            try:
+                outs[p].encode('latin-1').decode('utf-8')
+            except UnicodeDecodeError:
+                v.append(f'WF-{os.path.basename(p).split(".")[-1]}-not-utf8')
     if target == 'vscode':
         base = [p for p in outs if p.endswith('/package.json')]
         if not base:
